@@ -89,35 +89,44 @@ def fail(res, clause, api, args, out):
 def narrow_integer_arguments(res, rng, C):
     """whole-number arguments given as narrow numpy integers (int8 / uint8 / int16 / int32 scalars, e.g. a frequency index or a
     height read from an integer array) are real scalars like any other: the value must be the one obtained for the same number as a
-    Python float (an intermediate product kept in the narrow type wraps around)"""
+    Python float (an intermediate product kept in the narrow type wraps around).  EVERY argument position of every function is tried,
+    with its sampled magnitude and with 12, 20, 100, 200, 400 (a square of 12 already leaves int8) wherever the function accepts
+    that number as a float"""
     import numpy as np
+    import warnings
     for name, f in C.items():
-        for _ in range(6):
+        for rep in range(2):
             args = list(sample_args(rng, name))
             # whole-number version of every argument that admits one (> 0.5), magnitudes as they occur: 1..400
             whole = [float(max(1, round(a))) if isinstance(a, float) and a >= 0.5 else a for a in args]
             if name == 'ochiHubbleSpectrum':
                 whole[2] = whole[1] + 1.0
-            k = rng.randrange(len(whole))
-            if not (isinstance(whole[k], float) and whole[k] == int(whole[k]) and whole[k] >= 1):
-                k = 0
-                if not (isinstance(whole[0], float) and whole[0] >= 1):
+            for k in range(len(whole)):
+                if not isinstance(whole[k], float):
                     continue
-            if k == 0:
-                whole[0] = float(rng.choice([1, 2, 3, 5, 20, 127, 200, 400]))
-            ty = rng.choice([np.int8, np.uint8, np.int16, np.int32, np.uint16])
-            if whole[k] > np.iinfo(ty).max:
-                ty = np.int32
-            res.evaluations += 1
-            res.stat('narrow_integer_argument')
-            try:
-                want = f(*whole)
-                got = f(*[ty(int(a)) if i == k else a for i, a in enumerate(whole)])
-            except Exception as e:  # noqa
-                fail(res, 'admissible whole-number argument rejected as a narrow numpy integer: ' + type(e).__name__ + ' ' + str(e)[:60], name, tuple(whole) + (k, ty.__name__), None)
-                continue
-            if not gen.close(float(got), float(want), 1e-9, 1e-300):
-                fail(res, 'value changes when a whole-number argument is a narrow numpy integer (%s, argument %d)' % (ty.__name__, k), name, tuple(whole), [float(got), float(want)])
+                for v in ([whole[k]] if whole[k] == int(whole[k]) and whole[k] >= 1 else []) + [float(rng.choice([12, 20, 100, 127, 200, 400]))]:
+                    trial = list(whole)
+                    trial[k] = v
+                    try:
+                        with warnings.catch_warnings():
+                            warnings.simplefilter('ignore')
+                            want = f(*trial)
+                    except Exception:  # noqa (not an admissible value for this position)
+                        continue
+                    if not (want == want and abs(float(want)) < 1e300):
+                        continue
+                    ty = rng.choice([t for t in (np.int8, np.uint8, np.int16, np.uint16, np.int32) if v <= np.iinfo(t).max])
+                    res.evaluations += 1
+                    res.stat('narrow_integer_argument')
+                    try:
+                        with warnings.catch_warnings():
+                            warnings.simplefilter('ignore')
+                            got = f(*[ty(int(a)) if i == k else a for i, a in enumerate(trial)])
+                    except Exception as e:  # noqa
+                        fail(res, 'admissible whole-number argument rejected as a narrow numpy integer: ' + type(e).__name__ + ' ' + str(e)[:60], name, tuple(trial) + (k, ty.__name__), None)
+                        continue
+                    if not gen.close(float(got), float(want), 1e-9, 1e-300):
+                        fail(res, 'value changes when a whole-number argument is a narrow numpy integer (%s, argument %d)' % (ty.__name__, k), name, tuple(trial), [float(got), float(want)])
 
 
 def tiny_frequencies(res, rng, C):
@@ -222,6 +231,12 @@ def explore(res, rng, n, areas):
                            al * g * g / (4 * be) * (Uw / g) ** 4))
             a = sample_args(rng, 'ochiHubbleSpectrum')[1:]
             checks.append(('ochiHubbleSpectrum', a, area(lambda w: lsm.ochiHubbleSpectrum(w, *a), 0, math.inf, a[0]), (a[2] ** 2 + a[3] ** 2) / 16))
+            # a long swell under a young wind sea: peak frequencies a factor 4.5 .. 7 apart (around the swell peak the cut-off of the wind-sea
+            # component has underflowed: that component is 0 there, the other one is not)
+            w1 = rng.choice([0.3, 0.35, 0.25])
+            a2 = (w1, round(w1 * rng.choice([4.5, 5.0, 6.0, 7.0]), 3), pos(rng, 1, 6), pos(rng, 1, 6), pos(rng, 1, 4), pos(rng, 0.8, 3))
+            checks.append(('ochiHubbleSpectrum', a2, area(lambda w: lsm.ochiHubbleSpectrum(w, *a2), 0, math.inf, a2[0]), (a2[2] ** 2 + a2[3] ** 2) / 16))
+            res.stat('ochi_hubble_widely_separated_peaks')
             d1, kp = pos(rng, 5, 40), rng.choice([0.005, 0.02])
             checks.append(('davenportDragDim', (d1, kp), area(lambda x: lsm.davenportSpectrumWithDragCoef(x, d1, kp, False), 0, math.inf, d1 / 1200),
                            6 * kp * d1 * d1))
